@@ -417,7 +417,15 @@ def completeness_identities(ck, F, pv, rule="R01.5"):
             continue
         sub_off = sp.Integer(0)
         for sg in part.nonempty_segs():
-            e_at = lambda jj, sg=sg: sg.f(jj).e
+            def e_at(jj, sg=sg):
+                v_ = sg.f(jj)
+                while isinstance(v_, Ite):  # identities are stated for the general case n2 > 0 (n2 = 0 is an instance)
+                    ph_ = pv.phase2(v_)
+                    if ph_ is None:
+                        raise Unanalysable(f"verifier scalar is conditional on {v_.cond}")
+                    v_ = ph_[0]
+                return v_.e
+
             if name == "B":
                 c0, c1, rest = split_r(e_at(sp.Integer(0)))
                 coefB[0] += c0
